@@ -627,3 +627,79 @@ def unenumerate_filter_fold(f):
     if n:
         f.rewrites.append(('R6', f'{n}x `VEC.iter().enumerate().filter(|&(j, _)| COND).fold(INIT, |acc, (_, &x)| BODY)` -> guarded accumulation loop', ''))
     return f
+
+
+def split_or_pattern_guard_arms(f):
+    """R4: a match arm `P1 | P2 if G => BODY` (or-pattern together with a guard: outside the verifier's dialect) -> `P1 if G => BODY, P2 if G => BODY`"""
+    n = 0
+    pos = 0
+    while True:
+        m = re.search(r'=>', f.body[pos:])
+        if not m:
+            break
+        arrow = pos + m.start()
+        # arm head: from the previous arm end (`,` / `{` / `}` at the same depth) to the arrow
+        depth, i = 0, arrow - 1
+        while i >= 0:
+            ch = f.body[i]
+            if ch in ')]}':
+                depth += 1
+            elif ch in '([{':
+                if depth == 0:
+                    break
+                depth -= 1
+            elif ch == ',' and depth == 0:
+                break
+            i -= 1
+        head = f.body[i + 1:arrow]
+        mg = re.search(r'\bif\b', head)
+        pat = head[:mg.start()] if mg else head
+        # top-level `|` in the pattern
+        parts, d2, cur = [], 0, ''
+        for ch in pat:
+            if ch in '([{':
+                d2 += 1
+            elif ch in ')]}':
+                d2 -= 1
+            if ch == '|' and d2 == 0:
+                parts.append(cur)
+                cur = ''
+            else:
+                cur += ch
+        parts.append(cur)
+        if mg and len(parts) > 1 and all(p.strip() for p in parts):
+            guard = head[mg.start():]
+            # arm body: block or expression up to the top-level comma
+            j = arrow + 2
+            while f.body[j] in ' \n\t':
+                j += 1
+            if f.body[j] == '{':
+                end = match_brace(f.body, j) + 1
+                body = f.body[j:end]
+                if end < len(f.body) and f.body[end] == ',':
+                    end += 1
+            else:
+                d3, end = 0, j
+                while end < len(f.body):
+                    ch = f.body[end]
+                    if ch in '([{':
+                        d3 += 1
+                    elif ch in ')]}':
+                        if d3 == 0:
+                            break
+                        d3 -= 1
+                    elif ch == ',' and d3 == 0:
+                        break
+                    end += 1
+                body = f.body[j:end]
+                if end < len(f.body) and f.body[end] == ',':
+                    end += 1
+            new = ' '.join(f'{p.strip()} {guard.strip()} => {body},' for p in parts)
+            f.body = f.body[:i + 1] + ' ' + new + f.body[end:]
+            pos = i + 1 + len(new)
+            n += 1
+        else:
+            pos = arrow + 2
+    if n:
+        f.rewrites.append(('R4', f'{n} match arm(s) `P1 | P2 if G => B` split into one guarded arm per alternative (B verbatim)', ''))
+    return f
